@@ -325,6 +325,26 @@ def check_case(ctx, case):
                          + 1.0):
                 ctx.violation('GoRT != HoRT - SoR on the estimate', case,
                               {'T': T, 'vals': vals})
+    # ---- the caller's mapping is the caller's: changing it afterwards
+    # must not change the estimate
+    if compared and mapping and temps:
+        T0 = temps[0]
+        b0 = observe(est.get_HoRT, T0)
+        try:
+            for k_ in list(mapping):
+                mapping[k_] = mapping[k_] * 3 + 1
+            mapping.clear()
+        except Exception:
+            pass
+        a0 = observe(est.get_HoRT, T0)
+        ctx.evals()
+        if repr(a0.get('ok', a0.get('exc'))) != repr(b0.get('ok',
+                                                            b0.get('exc'))):
+            ctx.violation('changing the mapping after Estimate() changed the '
+                          'estimate', case, {'before': repr(b0)[:120],
+                                             'after': repr(a0)[:120]})
+        else:
+            ctx.count('caller_mapping_mutated_after_estimate')
     if _contract['bad']:
         ctx.violation('estimator holds terms that are not one per key',
                       case, _contract['bad'][-1])
